@@ -24,7 +24,8 @@ pub fn gen(seed: u64, tier: Tier, k: u64) -> Value {
     let case = gen_small(&mut rng, tier, pkg, n_extra, 4);
     // where the manifest lives: as created, or re-assembled by concat in a random order (manifest at another offset)
     let layout = if pkg != Pkg::OneFile && k % 2 == 1 { "concat" } else { "as-created" };
-    json!({"case": case.to_json(), "layout": layout, "steps": rng.range(1, tier.pick(12, 30)), "h_seed": rng.next()})
+    // every fourth history is driven through the command line tool (`jbk locate <file> <uuid> <location>`)
+    json!({"case": case.to_json(), "layout": layout, "steps": rng.range(1, tier.pick(12, 30)), "h_seed": rng.next(), "via_cli": k % 4 == 3})
 }
 
 /// A location derived from the current one: textually different but equivalent as a path, or the name of an existing file.
@@ -78,6 +79,7 @@ pub fn run(desc: &Value, ctx: &Ctx) -> CaseOut {
     let case = ContCase::from_json(desc.get("case").unwrap());
     let layout = jstr(desc, "layout").to_string();
     let steps = ju64(desc, "steps");
+    let via_cli = jbool(desc, "via_cli");
     let mut rng = Rng::new(ju64(desc, "h_seed"));
     let scratch = Scratch::new(&ctx.work, "c12");
     let mut fp = Fp::new();
@@ -148,13 +150,36 @@ pub fn run(desc: &Value, ctx: &Ctx) -> CaseOut {
                 None => gen_location(&mut rng),
             };
             out.obs.set("location_lengths", format!("{}", newloc.len()));
-            let res = util::catch(|| jbk::tools::set_location(&target, uuid::Uuid::from_bytes(uuid), newloc.as_str().into()));
-            let res = match res {
-                Err(p) => {
-                    out.violate_panic("C12", "set_location", &layout, &p);
-                    return;
+            let mut cli_res = None;
+            if via_cli {
+                match crate::cli::set_location(&target, &uuid::Uuid::from_bytes(uuid), &newloc) {
+                    None => out.obs.inc("command_line_tool_unavailable"),
+                    Some(crate::cli::SetLoc::Changed { old }) => cli_res = Some(Ok(Some(old))),
+                    Some(crate::cli::SetLoc::NotInManifest) => cli_res = Some(Ok(None)),
+                    Some(crate::cli::SetLoc::Error(e)) => cli_res = Some(Err(e)),
+                    Some(crate::cli::SetLoc::Panic(m)) => {
+                        out.violate(json!({"kind": "panic", "api": "jbk locate", "layout": layout, "message": util::normalize_msg(&m), "profile": profile()}), format!("C12: step {step}: `jbk locate` panicked: {m}"), json!({}));
+                        return;
+                    }
+                    Some(crate::cli::SetLoc::Other(m)) => {
+                        out.violate(json!({"kind": "cli-report", "layout": layout, "profile": profile()}), format!("C12: step {step}: `jbk locate` with a new location of {} bytes: {m}", newloc.len()), json!({}));
+                        return;
+                    }
                 }
-                Ok(r) => r,
+            }
+            // (kind is not compared; the old location is)
+            let res: Result<Option<String>, String> = match cli_res {
+                Some(r) => {
+                    out.obs.inc("rewrites_by_command_line");
+                    r
+                }
+                None => match util::catch(|| jbk::tools::set_location(&target, uuid::Uuid::from_bytes(uuid), newloc.as_str().into())) {
+                    Err(p) => {
+                        out.violate_panic("C12", "set_location", &layout, &p);
+                        return;
+                    }
+                    Ok(r) => r.map(|o| o.map(|(_k, old)| old.as_str().to_string())).map_err(|e| e.to_string()),
+                },
             };
             let after = std::fs::read(&target).unwrap();
             out.obs.inc("rewrites");
@@ -180,7 +205,7 @@ pub fn run(desc: &Value, ctx: &Ctx) -> CaseOut {
                     fail(&mut out, "set-location-none", "set_location answered None for a listed pack".into());
                     return;
                 }
-                (Some(i), Ok(Some((_kind, old)))) => {
+                (Some(i), Ok(Some(old))) => {
                     effective += 1;
                     let want_old = model[&i.uuid].clone();
                     if old.as_str() != want_old {
@@ -244,6 +269,18 @@ pub fn run(desc: &Value, ctx: &Ctx) -> CaseOut {
                 }
                 Ok(())
             });
+            if via_cli {
+                if let Some(i) = &info {
+                    match crate::cli::declared_location(&target, &uuid::Uuid::from_bytes(i.uuid)) {
+                        Some(l) if l == model[&i.uuid] => out.obs.inc("command_line_readbacks"),
+                        Some(l) => {
+                            fail(&mut out, "cli-readback", format!("`jbk locate` prints declared location {l:?}, expected {:?}", model[&i.uuid]));
+                            return;
+                        }
+                        None => out.obs.inc("command_line_readback_not_parsed_or_unavailable"),
+                    }
+                }
+            }
             match lib {
                 Ok(Ok(())) => out.obs.inc("library_readbacks"),
                 Ok(Err(e)) => {
